@@ -16,18 +16,22 @@ package json
 
 //@ config JSONMarshalFunc != nil
 
+// C02 (integers): the value handed to strconv is the mathematical value of the
+// argument, in base 10; strconv's decimal text is trusted to denote it.
+//@ track strconv.AppendInt, strconv.AppendUint, strconv.AppendBool, Time.Unix, Time.UnixNano, Time.AppendFormat, Encoder.AppendFloat64
+
 //@ var JSONMarshalFunc(v) res, err
 //@   modifies nothing
 //@   ensures err == nil ==> wholevalue(res)
 
 //@ func init()
-//@   props C01 C02
+//@   props C01
 //@   arith int
 //@   flag tags !binary_log
 //@   requires !init$guard
 
 //@ func init#1()
-//@   props C01 C02
+//@   props C01
 //@   arith int
 //@   flag tags !binary_log
 //@   requires forall k in 0..256: noEscapeTable[k] == false
@@ -42,7 +46,7 @@ package json
 // base.go
 
 //@ func (Encoder).AppendKey(e, dst, key) res
-//@   props C01 C02 C03
+//@   props C01 C03
 //@   arith int
 //@   flag tags !binary_log
 //@   flag stream
@@ -53,7 +57,7 @@ package json
 // string.go, bytes.go
 
 //@ func (Encoder).AppendString(e, dst, s) res
-//@   props C01 C02
+//@   props C01
 //@   arith int
 //@   flag tags !binary_log
 //@   flag stream
@@ -64,7 +68,7 @@ package json
 //@     decreases len(s) - i
 
 //@ func appendStringComplex(dst, s, i) res
-//@   props C01 C02
+//@   props C01
 //@   arith int
 //@   flag tags !binary_log
 //@   flag stream
@@ -76,7 +80,7 @@ package json
 //@     decreases len(s) - i
 
 //@ func (Encoder).AppendBytes(e, dst, s) res
-//@   props C01 C02
+//@   props C01
 //@   arith int
 //@   flag tags !binary_log
 //@   flag stream
@@ -87,7 +91,7 @@ package json
 //@     decreases len(s) - i
 
 //@ func appendBytesComplex(dst, s, i) res
-//@   props C01 C02
+//@   props C01
 //@   arith int
 //@   flag tags !binary_log
 //@   flag stream
@@ -99,7 +103,7 @@ package json
 //@     decreases len(s) - i
 
 //@ func (Encoder).AppendHex(e, dst, s) res
-//@   props C01 C02
+//@   props C01
 //@   arith int
 //@   flag tags !binary_log
 //@   flag stream
@@ -116,11 +120,12 @@ package json
 // types.go: markers and scalars
 
 //@ func (Encoder).AppendNil(e, dst) res
-//@   props C01 C02
+//@   props C01
 //@   arith int
 //@   flag tags !binary_log
 //@   requires valueok(dst)
 //@   ensures emitsvalue(res, dst)
+//@   ensures [C02] len(res) == len(dst) + 4 && res[len(dst)] == 'n' && res[len(dst)+1] == 'u' && res[len(dst)+2] == 'l' && res[len(dst)+3] == 'l'
 
 //@ func (Encoder).AppendBeginMarker(e, dst) res
 //@   props C01 C03
@@ -168,17 +173,18 @@ package json
 //@   ensures len(dst) > 0 ==> len(res) == len(dst) + 1 && mode(res) == ite(mode(dst) == ARR_NEXT, ARR_COMMA, LIST_COMMA)
 
 //@ func (Encoder).AppendBool(e, dst, val) res
-//@   props C01 C02
+//@   props C01
 //@   arith int
 //@   flag tags !binary_log
 //@   requires valueok(dst)
 //@   ensures emitsvalue(res, dst)
+//@   ensures [C02] ncalls(strconv.AppendBool) == old(ncalls(strconv.AppendBool)) + 1 && callarg(strconv.AppendBool, old(ncalls(strconv.AppendBool)), 1) == val && same(res, callres(strconv.AppendBool, old(ncalls(strconv.AppendBool)), 0))
 '''
 
 def scalar(name, params):
     return f'''
 //@ func (Encoder).{name}(e, dst, {params}) res
-//@   props C01 C02
+//@   props C01
 //@   arith int
 //@   flag tags !binary_log
 //@   requires valueok(dst)
@@ -190,7 +196,7 @@ def arr(name, params, extra_req='', recv='(Encoder).', flags=''):
     r = 'e, ' if recv else ''
     return f'''
 //@ func {recv}{name}({r}dst, vals{p}) res
-//@   props C01 C02
+//@   props C01
 //@   arith int
 //@   flag tags !binary_log{flags}
 //@   requires valueok(dst){extra_req}
@@ -201,25 +207,42 @@ def arr(name, params, extra_req='', recv='(Encoder).', flags=''):
 //@     decreases len(vals) - 1 - (rangeindex + 1)
 '''
 
+def intscalar(name, fn, conv):
+    return scalar(name, 'val').rstrip('\n') + f'''
+//@   ensures [C02] ncalls({fn}) == old(ncalls({fn})) + 1 && callarg({fn}, old(ncalls({fn})), 1) == {conv}(val) && callarg({fn}, old(ncalls({fn})), 2) == 10 && same(res, callres({fn}, old(ncalls({fn})), 0))
+'''
+
+def intarr(name, fn, conv):
+    base = arr(name, '')
+    head, loop = base.split('//@   loop 1:\n')
+    return head + f'''//@   ensures [C02] len(vals) == 0 ==> ncalls({fn}) == old(ncalls({fn}))
+//@   ensures [C02] len(vals) > 0 ==> ncalls({fn}) == old(ncalls({fn})) + len(vals)
+//@   ensures [C02] forall j in old(ncalls({fn}))..ncalls({fn}): callarg({fn}, j, 1) == {conv}(vals[j - old(ncalls({fn}))]) && callarg({fn}, j, 2) == 10
+//@   loop 1:
+''' + loop.rstrip('\n') + f'''
+//@     invariant [C02] ncalls({fn}) == old(ncalls({fn})) + rangeindex + 2
+//@     invariant [C02] forall j in old(ncalls({fn}))..ncalls({fn}): callarg({fn}, j, 1) == {conv}(vals[j - old(ncalls({fn}))]) && callarg({fn}, j, 2) == 10
+'''
+
 out = HDR
 for w in ['', '8', '16', '32', '64']:
-    out += scalar('AppendInt'+w, 'val')
-    out += arr('AppendInts'+w, '')
-    out += scalar('AppendUint'+w, 'val')
-    out += arr('AppendUints'+w, '')
+    out += intscalar('AppendInt'+w, 'strconv.AppendInt', 'int64')
+    out += intarr('AppendInts'+w, 'strconv.AppendInt', 'int64')
+    out += intscalar('AppendUint'+w, 'strconv.AppendUint', 'uint64')
+    out += intarr('AppendUints'+w, 'strconv.AppendUint', 'uint64')
 out += arr('AppendBools', '')
 out += arr('AppendStrings', '', flags='\n//@   flag stream')
 out += arr('AppendStringers', '', extra_req=' && JSONMarshalFunc != nil')
 out += '''
 //@ func (Encoder).AppendStringer(e, dst, val) res
-//@   props C01 C02
+//@   props C01
 //@   arith int
 //@   flag tags !binary_log
 //@   requires valueok(dst) && JSONMarshalFunc != nil
 //@   ensures emitsvalue(res, dst)
 
 //@ func appendFloat(dst, val, bitSize, precision) res
-//@   props C01 C02
+//@   props C01
 //@   arith int
 //@   flag tags !binary_log
 //@   flag assumepost strconv.AppendFloat emits a JSON number; the in-place rewrite of a trailing e-0d to e-d keeps it one (the byte automaton is not run backwards over an in-place edit)
@@ -232,14 +255,14 @@ out += arr('AppendFloats32', 'precision')
 out += arr('AppendFloats64', 'precision')
 out += '''
 //@ func (Encoder).AppendInterface(e, dst, i) res
-//@   props C01 C02
+//@   props C01
 //@   arith int
 //@   flag tags !binary_log
 //@   requires valueok(dst) && JSONMarshalFunc != nil
 //@   ensures emitsvalue(res, dst)
 
 //@ func (Encoder).AppendType(e, dst, i) res
-//@   props C01 C02
+//@   props C01
 //@   arith int
 //@   flag tags !binary_log
 //@   requires valueok(dst)
@@ -254,21 +277,21 @@ out += '''
 //@   ensures lex(res) == 0 && mode(res) == OBJ_NEXT && stk(res) == stk(dst) && prefix(res, dst) && len(res) > len(dst) && res[len(res)-1] != '{'
 
 //@ func (Encoder).AppendIPAddr(e, dst, ip) res
-//@   props C01 C02
+//@   props C01
 //@   arith int
 //@   flag tags !binary_log
 //@   requires valueok(dst)
 //@   ensures emitsvalue(res, dst)
 
 //@ func (Encoder).AppendIPPrefix(e, dst, pfx) res
-//@   props C01 C02
+//@   props C01
 //@   arith int
 //@   flag tags !binary_log
 //@   requires valueok(dst)
 //@   ensures emitsvalue(res, dst)
 
 //@ func (Encoder).AppendMACAddr(e, dst, ha) res
-//@   props C01 C02
+//@   props C01
 //@   arith int
 //@   flag tags !binary_log
 //@   requires valueok(dst)
@@ -278,22 +301,30 @@ out += '''
 // time.go
 
 //@ func (Encoder).AppendTime(e, dst, t, format) res
-//@   props C01 C02
+//@   props C01
 //@   arith int
 //@   flag tags !binary_log
 //@   requires valueok(dst) && cleanlayout(format)
 //@   ensures emitsvalue(res, dst)
+//@   ensures [C02] format == timeFormatUnix ==> ncalls(Time.Unix) == old(ncalls(Time.Unix)) + 1 && callarg(Time.Unix, old(ncalls(Time.Unix)), 0) == t && ncalls(strconv.AppendInt) == old(ncalls(strconv.AppendInt)) + 1 && callarg(strconv.AppendInt, old(ncalls(strconv.AppendInt)), 1) == callres(Time.Unix, old(ncalls(Time.Unix)), 0) && callarg(strconv.AppendInt, old(ncalls(strconv.AppendInt)), 2) == 10 && ncalls(Time.AppendFormat) == old(ncalls(Time.AppendFormat))
+//@   ensures [C02] format == timeFormatUnixMs ==> ncalls(Time.UnixNano) == old(ncalls(Time.UnixNano)) + 1 && callarg(Time.UnixNano, old(ncalls(Time.UnixNano)), 0) == t && ncalls(strconv.AppendInt) == old(ncalls(strconv.AppendInt)) + 1 && callarg(strconv.AppendInt, old(ncalls(strconv.AppendInt)), 1) == callres(Time.UnixNano, old(ncalls(Time.UnixNano)), 0) / 1000000 && callarg(strconv.AppendInt, old(ncalls(strconv.AppendInt)), 2) == 10 && ncalls(Time.AppendFormat) == old(ncalls(Time.AppendFormat))
+//@   ensures [C02] format == timeFormatUnixMicro ==> ncalls(Time.UnixNano) == old(ncalls(Time.UnixNano)) + 1 && callarg(Time.UnixNano, old(ncalls(Time.UnixNano)), 0) == t && ncalls(strconv.AppendInt) == old(ncalls(strconv.AppendInt)) + 1 && callarg(strconv.AppendInt, old(ncalls(strconv.AppendInt)), 1) == callres(Time.UnixNano, old(ncalls(Time.UnixNano)), 0) / 1000 && callarg(strconv.AppendInt, old(ncalls(strconv.AppendInt)), 2) == 10 && ncalls(Time.AppendFormat) == old(ncalls(Time.AppendFormat))
+//@   ensures [C02] format == timeFormatUnixNano ==> ncalls(Time.UnixNano) == old(ncalls(Time.UnixNano)) + 1 && callarg(Time.UnixNano, old(ncalls(Time.UnixNano)), 0) == t && ncalls(strconv.AppendInt) == old(ncalls(strconv.AppendInt)) + 1 && callarg(strconv.AppendInt, old(ncalls(strconv.AppendInt)), 1) == callres(Time.UnixNano, old(ncalls(Time.UnixNano)), 0) && callarg(strconv.AppendInt, old(ncalls(strconv.AppendInt)), 2) == 10 && ncalls(Time.AppendFormat) == old(ncalls(Time.AppendFormat))
+//@   ensures [C02] format != timeFormatUnix && format != timeFormatUnixMs && format != timeFormatUnixMicro && format != timeFormatUnixNano ==> ncalls(Time.AppendFormat) == old(ncalls(Time.AppendFormat)) + 1 && callarg(Time.AppendFormat, old(ncalls(Time.AppendFormat)), 0) == t && callarg(Time.AppendFormat, old(ncalls(Time.AppendFormat)), 2) == format && ncalls(strconv.AppendInt) == old(ncalls(strconv.AppendInt))
+//@   ensures [C02] format != timeFormatUnix && format != timeFormatUnixMs && format != timeFormatUnixMicro && format != timeFormatUnixNano ==> len(res) >= len(dst) + 2 && res[len(dst)] == '"' && res[len(res)-1] == '"'
 '''
 out += arr('AppendTimes', 'format', extra_req=' && cleanlayout(format)')
 out += arr('appendUnixTimes', '', recv='')
 out += arr('appendUnixNanoTimes', 'div', extra_req=' && div != 0', recv='')
 out += '''
 //@ func (Encoder).AppendDuration(e, dst, d, unit, useInt, precision) res
-//@   props C01 C02
+//@   props C01
 //@   arith int
 //@   flag tags !binary_log
 //@   requires valueok(dst) && (useInt ==> unit != 0)
 //@   ensures emitsvalue(res, dst)
+//@   ensures [C02] useInt ==> ncalls(strconv.AppendInt) == old(ncalls(strconv.AppendInt)) + 1 && callarg(strconv.AppendInt, old(ncalls(strconv.AppendInt)), 1) == int64(d) / int64(unit) && callarg(strconv.AppendInt, old(ncalls(strconv.AppendInt)), 2) == 10 && ncalls(Encoder.AppendFloat64) == old(ncalls(Encoder.AppendFloat64))
+//@   ensures [C02] !useInt ==> ncalls(Encoder.AppendFloat64) == old(ncalls(Encoder.AppendFloat64)) + 1 && callarg(Encoder.AppendFloat64, old(ncalls(Encoder.AppendFloat64)), 3) == precision && ncalls(strconv.AppendInt) == old(ncalls(strconv.AppendInt))
 '''
 out += arr('AppendDurations', 'unit, useInt, precision', extra_req=' && (useInt ==> unit != 0)')
 open('/repo/internal/json/zz_contracts_verif.go','w').write(out)
